@@ -274,14 +274,5 @@ Proof.
   eapply empty_member_keeps_tail; eassumption.
 Qed.
 
-Theorem override_empty w : 10 <= w -> w <= 30 ->
-  exists e, concat_spec (Some w) [] = Some e /\ e = pack (wbits_field w ++ [true; true]) /\
-    rr_emitted (run_native 50 [8] false false [] [TFinish] (init (Some w))) = e /\
-    rr_emitted (run_native 50 [8] false false [] [TFile; TChunk [59]; TFinish] (init (Some w))) = e /\
-    rr_emitted (run_native 50 [8] false false [] [TFile; TChunk [6]; TFile; TChunk [129; 1]; TFinish] (init (Some w))) = e.
-Proof.
-  intros H1 H2. pose proof (all_between_spec _ _ _ override_ok_all w H1 ltac:(lia)) as H.
-  unfold override_ok in H. destruct (concat_spec (Some w) []) as [e|]; [|discriminate].
-  repeat (apply andb_true_iff in H; destruct H as [H ?]).
-  exists e. repeat split; try (symmetry; apply list_eqb_eq; assumption); try (apply list_eqb_eq; assumption).
-Qed.
+Theorem override_empty w : 10 <= w -> w <= 30 -> override_ok w = true.
+Proof. intros H1 H2. apply (all_between_spec _ _ _ override_ok_all w H1). lia. Qed.
